@@ -21,7 +21,7 @@ const goldenVariants = 3 // lazy load / Create first / writes first then reopen
 
 func init() {
 	drivers["C18"] = &driver{cases: func(t string) int {
-		n := len(goldenNames) * goldenVariants
+		n := len(goldenNames)*goldenVariants + goldenExtras
 		if t == "thorough" {
 			return n + 2000
 		}
@@ -310,7 +310,75 @@ func copyTree(src, dst string) error {
 	return exec.Command("cp", "-a", src, dst).Run()
 }
 
+const goldenExtras = 2
+
+func runC18Extra(k int, rng *Rng) CaseResult {
+	name := fmt.Sprintf("x%d", k)
+	var man GoldenExtra
+	b, err := os.ReadFile(filepath.Join(goldenRoot(), name, "manifest.json"))
+	if err != nil || json.Unmarshal(b, &man) != nil {
+		return CaseResult{Inconclusive: "harness: golden manifest unreadable: " + name}
+	}
+	clockNewCase(clockReal)
+	installHooks(stdHooks())
+	root := caseDir(k, "c18x")
+	os.MkdirAll(filepath.Dir(root), 0o755)
+	if err := copyTree(filepath.Join(goldenRoot(), name, "db"), root); err != nil {
+		return CaseResult{Inconclusive: "harness: cannot copy golden: " + err.Error()}
+	}
+	cfg := Config{Ext: ".json", LowerName: man.Lower}
+	w := NewWorld("C18", rng, cfg, root)
+	defer w.Cleanup()
+	w.Open()
+	w.abs("golden-extra:" + name)
+	var objs []sod.Object
+	w.call("All(URLRec)", func() { objs, err = w.db.All(&URLRec{}) })
+	if err != nil || len(objs) != len(man.Objs) {
+		w.fail("golden-open", "All", "acronym-type", fmt.Sprintf("collection of type URLRec written by the pinned release in directory %q: %d objects, err=%v (manifest: %d)", man.Dir, len(objs), err, len(man.Objs)))
+		return w.finish(w.absOps, true, nil)
+	}
+	for _, o := range objs {
+		if man.Objs[o.UUID()] != canonJSON(o) {
+			w.fail("golden-open", "All", "acronym-type", "object differs from manifest")
+		}
+	}
+	var n int
+	w.call("Search(URLRec)", func() {
+		s := w.db.Search(&URLRec{}, "Host", "=", "HOST1.Example")
+		err, n = s.Err(), s.Len()
+	})
+	if err != nil || n != 1 {
+		w.fail("golden-open", "Search", "acronym-type", fmt.Sprintf("Host = HOST1.Example (unique,lower): len=%d err=%v", n, err))
+	}
+	dup := &URLRec{Host: "host0.EXAMPLE"}
+	w.call("InsertOrUpdate(URLRec)", func() { err = w.db.InsertOrUpdate(dup) })
+	if !sod.IsUnique(err) {
+		w.fail("golden-open", "InsertOrUpdate", "acronym-type", fmt.Sprintf("duplicate unique key accepted: %v", err))
+	}
+	fresh := &URLRec{Host: "new.example", Hits: 99}
+	w.call("InsertOrUpdate(URLRec)", func() { err = w.db.InsertOrUpdate(fresh) })
+	if err != nil {
+		w.fail("golden-open", "InsertOrUpdate", "acronym-type", err.Error())
+	}
+	w.call("Close", func() { err = w.db.Close() })
+	ents, _ := os.ReadDir(root)
+	if len(ents) != 1 || ents[0].Name() != man.Dir {
+		var names []string
+		for _, e := range ents {
+			names = append(names, e.Name())
+		}
+		w.fail("layout-dirname", "-", "acronym-type", fmt.Sprintf("after writing through the current code the root contains %v; the pinned release names the collection %q", names, man.Dir))
+	}
+	res := w.finish(w.absOps, true, nil)
+	res.Sample = map[string]interface{}{"golden": name, "type": "main.URLRec", "lowercase_names": man.Lower, "dir": man.Dir}
+	return res
+}
+
 func runC18(k int, rng *Rng) CaseResult {
+	if k < goldenExtras {
+		return runC18Extra(k, rng)
+	}
+	k -= goldenExtras
 	if k >= len(goldenNames)*goldenVariants {
 		return runC18Fresh(k, rng)
 	}
